@@ -303,6 +303,29 @@ pub fn gen(rng: &mut Rng, n: usize, thorough: bool, stats: &mut Stats) -> Vec<St
 		));
 		let steps = if thorough { rng.range(20, 80) } else { rng.range(12, 40) };
 		let mut nclocks = 0usize;
+		// resource churn: more create/drop generations of one kind than its capacity, with callbacks in
+		// between (every removed resource travels through the unused-resource ring, which only the
+		// gameplay thread's next create of that kind drains)
+		if rng.chance(1, 5) {
+			let kind = rng.pick(&["send", "clock", "lfo", "tweener", "listener", "track"]);
+			for _ in 0..rng.range(6, 11) {
+				let create = match kind {
+					"send" => format!("send {} -", gen_db(rng)),
+					"clock" => {
+						nclocks += 1;
+						"clock tps 3ff0000000000000".to_string()
+					}
+					"lfo" => "lfo 0 3ff0000000000000 3ff0000000000000 0000000000000000 0000000000000000".to_string(),
+					"tweener" => "tweener 0000000000000000".to_string(),
+					"listener" => "listener 00000000 00000000 00000000 00000000 00000000 00000000 3f800000".to_string(),
+					_ => format!("track -1 {} 0 -1 fix:00000000 -", gen_db(rng)),
+				};
+				for l in [create, "cb 8 2".to_string(), format!("drop {} 0", kind), "cb 8 2".to_string()] {
+					stats.hit("churn");
+					out.push(l);
+				}
+			}
+		}
 		for _ in 0..steps {
 			let line = match rng.below(40) {
 				0 | 1 => format!("send {} {}", gen_db(rng), gen_fx_list(rng)),
